@@ -329,6 +329,10 @@ func (x *Exec) loopModSet(li *loopInfo, h *ssa.BasicBlock) (map[string]bool, boo
 			m := i.Map.Type().Underlying().(*types.Map)
 			d, v, c := x.mapNames(m)
 			mods[d], mods[v], mods[c] = true, true, true
+		case *ssa.Next:
+			if r, ok := i.Iter.(*ssa.Range); ok {
+				mods[miName(r, "vis")], mods[miName(r, "cnt")] = true, true
+			}
 		case *ssa.Select:
 			x.ghostCallMods(mods)
 		case *ssa.Alloc, *ssa.MakeSlice, *ssa.MakeMap, *ssa.MakeChan, *ssa.MakeInterface:
